@@ -63,7 +63,9 @@ func mkTm(t0, t1, ttl int64) func(int64) int64 {
 func ident(v int64) int64 { return v }
 
 // runStep executes one step in the given mode and writes its protocol line.
-func runStep(db *redka.DB, mode string, st step) {
+func runStep(db *redka.DB, mode string, st step) { runStepQ(db, mode, st, false) }
+
+func runStepQ(db *redka.DB, mode string, st step, quiet bool) {
 	seq++
 	var pre, post *dumpT
 	var res string
@@ -133,6 +135,10 @@ func runStep(db *redka.DB, mode string, st step) {
 		text = text + " " + parts[1]
 		res = parts[2]
 	}
+	if quiet {
+		fmt.Fprintf(out, "#! %s\n", text)
+		return
+	}
 	fmt.Fprintf(out, "%d %d %s | %s | %s | %s | %s\n", seq, t1, mode, pre.render(ident), text, res, post.render(tm))
 }
 
@@ -163,6 +169,12 @@ func main() {
 		wireMain()
 		return
 	}
+	if len(os.Args) > 2 && os.Args[1] == "script" {
+		out = bufio.NewWriterSize(os.Stdout, 1<<20)
+		defer out.Flush()
+		scriptMain(os.Args[2])
+		return
+	}
 	if len(os.Args) > 1 && os.Args[1] == "api" {
 		os.Args = append(os.Args[:1], os.Args[2:]...)
 	}
@@ -184,6 +196,7 @@ func main() {
 			m = []string{"db", "tx"}[rnd.Intn(2)]
 		}
 		g := &gen{rnd: rnd, hostile: *hostile, families: strings.Split(*fams, ","), dbLevel: m == "db"}
+		fmt.Fprintf(out, "# trace %d %s\n", t, m)
 		for i := 0; i < *length; i++ {
 			runStep(db, m, g.next())
 		}
